@@ -20,13 +20,13 @@ TARGETS = ['boltons.strutils.iter_splitlines', 'boltons.jsonutils.reverse_iter_l
            'boltons.jsonutils.JSONLIterator.__init__', 'boltons.jsonutils.JSONLIterator.next',
            'boltons.jsonutils.JSONLIterator._init_rel_seek']
 BOUNDS = {
-    'quick': {'iter_splitlines_text': 'len <= 3, all Unicode except \\x1c-\\x1e', 'file_items': '<= 5 items from {\\n, \\r\\n, ASCII, 2-byte, 3-byte char}',
+    'quick': {'iter_splitlines_text': 'len <= 3, all Unicode except \\x1c-\\x1e', 'file_items': '<= 5 items from {\\n, \\r (so also \\r\\n, lone and doubled \\r), ASCII, 2-byte, 3-byte char}',
               'blocksize': 'every value 1..len(content)+1', 'jsonl_lines': '<= 4 from {object, blank, whitespace, corrupt}; block edge at every offset'},
     'thorough': {'iter_splitlines_text': 'len <= 4', 'file_items': '<= 7'},
 }
 ASSUMPTIONS = ['line breaks per the statement: \\n \\r \\r\\n \\v \\f \\x85 \\u2028 \\u2029 (iter_splitlines); \\n and \\r\\n (reverse_iter_lines)',
                'UTF-8 files', 'an empty file has no lines']
-OUT_OF_CLAIM = ['texts containing \\x1c, \\x1d, \\x1e', 'bare \\r inside files for reverse_iter_lines', 'rel_seek', 'longer texts / files']
+OUT_OF_CLAIM = ['texts containing \\x1c, \\x1d, \\x1e', 'rel_seek', 'longer texts / files']
 STUBS = ['files are io.BytesIO / io.TextIOWrapper(io.BytesIO) objects (real CPython file objects, in memory)']
 
 BREAKS1 = ['\n', '\r', '\x0b', '\x0c', '\x85', ' ', ' ']
@@ -99,7 +99,7 @@ def splitlines_law(text: str) -> bool:
 
 
 # ------------------------------------------------------------------ reverse_iter_lines
-ITEMS = ['\n', '\r\n', 'a', '\xe9', '€', 'b']
+ITEMS = ['\n', '\r', 'a', '\xe9', '€']         # '\r\n' arises from the two classes in sequence; a '\r' not followed by '\n' is content
 
 
 def _rev_body(classes):
@@ -108,7 +108,9 @@ def _rev_body(classes):
     if not data:
         exp_b = []
     else:
-        exp_b = [ln[:-1] if ln.endswith(b'\r') else ln for ln in data.split(b'\n')][::-1]
+        segs = data.split(b'\n')
+        # every segment but the last was terminated by '\n': a '\r' directly before it is part of the break
+        exp_b = ([ln[:-1] if ln.endswith(b'\r') else ln for ln in segs[:-1]] + segs[-1:])[::-1]
     exp_t = [b.decode('utf-8') for b in exp_b]
     multi = any(c in (3, 4) for c in classes)
     for bs in range(1, len(data) + 2):
